@@ -63,6 +63,8 @@ def plans_for(f: Any, rng: random.Random, depth2: int, only_invalid: bool = Fals
     for i, t in enumerate(toks):
         for alt in INVALID.get(t.RULE, []):
             inv.append((i, 'raw', alt))
+        if t.RULE in ('DATE', 'NUMBER', 'ESCAPED_STRING'):
+            inv.append((i, 'badvalue', ''))      # a value the type cannot format: refused, and nothing kept of it
     if only_invalid:
         # refusals at every point of a short history: directly, and after one accepted assignment
         return [[x] for x in inv] + [[rng.choice(valid), x] for x in inv if valid]
@@ -107,7 +109,13 @@ def _chunk(arg: tuple) -> tuple[int, int, list, list]:
                         t = toks[i]
                         n_assign += 1
                         invalid = alt in INVALID.get(t.RULE, [])
-                        if via == 'raw':
+                        if via == 'badvalue':
+                            old_v, old_r = t.value, t.raw_text
+                            eb = rec.assign(store, t, lambda: setattr(t, 'value', object()))
+                            if eb is not None and (t.value != old_v or t.raw_text != old_r):
+                                value_bad.append((text, i, f'a value assignment refused with {type(eb).__name__} left value '
+                                                           f'{t.value!r} / text {t.raw_text!r} (was {old_v!r} / {old_r!r})'))
+                        elif via == 'raw':
                             e1 = rec.assign(store, t, lambda: setattr(t, 'raw_text', alt), expect_text=alt)
                             if e1 is not None and not invalid:
                                 value_bad.append((text, i, f'raw_text = {alt!r} (a lexeme of the type) raised {type(e1).__name__}: {e1}'))
@@ -192,7 +200,10 @@ def core(prop: str, tier: str, rep: common.Reporter) -> dict:
             n_assign += na
             traces.extend(tr)
             for text, i, alt in vb:
-                if prop == 'C02':
+                if alt.startswith('a value assignment refused'):
+                    if prop == 'C19':
+                        rep.violation('C19/doc-assign/refused-value-kept', {'what': alt, 'text': text, 'token': i})
+                elif prop == 'C02':
                     rep.violation('C02/assignment-failed', {'what': alt, 'text': text, 'token': i})
     tv = tracecheck.validate_store_traces(traces, batch=2500)
     for e in tv['errors']:
